@@ -55,6 +55,20 @@ try:
         elif ro != exp: bad = 'the result does not have exactly the rules of the reachable states'
         elif sorted(fo) != sorted(set(fi)): bad = 'the final states changed'
         if bad: found = {'automaton': t, 'command': 'vata -r expl -p load <file>', 'output': r.stdout.decode()[-600:], 'what': bad}
+        if not bad:
+            # RemoveUselessStates (-s): exactly the rules whose states are all productive and whose parent is reachable through such rules
+            r2 = subprocess.run([vata, '-r', 'expl', '-s', 'load', f], stdout=subprocess.PIPE, stderr=subprocess.PIPE, timeout=20)
+            fo2, ro2 = parse(r2.stdout.decode())
+            prod = set(); ch = True
+            while ch:
+                ch = False
+                for (sym, c, p) in ru:
+                    if p not in prod and all(x in prod for x in c): prod.add(p); ch = True
+            pr = [x for x in ru if x[2] in prod and all(y in prod for y in x[1])]
+            R2 = reach([q for q in fi if q in prod], pr); exp2 = sorted(set(x for x in pr if x[2] in R2))
+            if ro2 != exp2: bad = 'useless-state removal: the result %s is not exactly the useful rules %s' % (ro2[:4], exp2[:4])
+            elif sorted(fo2) != sorted(set(q for q in fi if q in prod)) and sorted(fo2) != sorted(set(q for q in fi if q in prod and q in R2)): bad = 'useless-state removal: final states %s' % fo2
+            if bad: found = {'automaton': t, 'command': 'vata -r expl -s load <file>', 'output': r2.stdout.decode()[-600:], 'what': bad}
     out.update({'automata_tried': tried})
     if found: out['reproduced'] = True; out['failing_input'] = found
 except Exception as e:
